@@ -12,6 +12,23 @@ from . import core
 from .model import AnalysisError, Program
 
 
+def anchored_modules(prop):
+    """module names of the source files listed in the property's anchors (properties.jsonl)"""
+    import json
+
+    out = []
+    with open(os.path.join(core.VERIF, "properties.jsonl")) as fh:
+        for line in fh:
+            rec = json.loads(line)
+            if rec["id"] == prop:
+                for f in rec["anchors"]["files"]:
+                    if f.endswith(".py") and f.startswith("src/"):
+                        out.append(f[len("src/") : -3].replace("/", "."))
+    if not out:
+        raise AnalysisError(f"no anchored source files for {prop}")
+    return out
+
+
 def run_check(prop: str, tier: str, seed: int) -> int:
     t0 = time.time()
     level = "other"
@@ -24,7 +41,18 @@ def run_check(prop: str, tier: str, seed: int) -> int:
         level = getattr(mod, "LEVEL", "other")
         program = Program()
         ctx = core.Ctx(prop, program, tier)
-        mod.check(ctx)
+        from . import purity
+
+        # shared rule M first: no incompletely keyed memo / hidden state in the modules the property is anchored in
+        purity.check_modules(ctx, f"{prop}-m", anchored_modules(prop))
+        try:
+            mod.check(ctx)
+        except AnalysisError as e:
+            if not any(o.status == "violated" for o in ctx.obligs):
+                raise
+            # a positive finding stands even if later rules could not be evaluated
+            ctx.notes.append(f"remaining rules not evaluated: {e}")
+            print(f"note: remaining rules of {prop} could not be evaluated: {e}")
         extra_cov, extra_exit = None, 0
         if tier == "thorough":
             from . import selftest
